@@ -214,8 +214,11 @@ NONDATA = {"kida": ["", "   ", "\t"], "umist": ["", "  "], "leeds": ["", "     "
 KFORMATS = ["idx,R,R,R,P,P,P,P,Tmin,Tmax,rate", "idx,R,R,P,P,Tmin,Tmax,rate", "idx,r,r,p,p,p,rate", "idx,R,R,R,P,P,P,P,P,Tmin,Tmax,rate", "R,R,P,P,P,rate"]
 
 
-def impl_read(path, fmt):
+def impl_read(path, fmt, tables=None):
     reset_globals()
+    if tables:
+        Species.set_known_elements(list(tables["elements"]))
+        Species.set_known_pseudoelements(list(tables["pseudo"]))
     with quiet():
         net = Network(filelist=str(path), fileformats=fmt)
     out = []
@@ -313,7 +316,7 @@ def make_file(rng, fmt, n):
     return lines, abstract
 
 
-def check_file(res, model, fmt, lines, abstract, tag, newline="\n", final_newline=True):
+def check_file(res, model, fmt, lines, abstract, tag, newline="\n", final_newline=True, tables=None):
     case = {"kind": "c07", "format": fmt, "lines": lines, "newline": newline, "final_newline": final_newline}
     d = ol.scratch_dir()
     p = d / f"net.{fmt}"
@@ -324,7 +327,7 @@ def check_file(res, model, fmt, lines, abstract, tag, newline="\n", final_newlin
     raw_lines = [l + "\n" for l in raw_lines[:-1]] + ([raw_lines[-1]] if raw_lines[-1] != "" else [])
     impl_err = None
     try:
-        impl = impl_read(p, fmt)
+        impl = impl_read(p, fmt, tables)
     except Exception as e:       # the file is rejected as a whole
         impl, impl_err = None, f"{type(e).__name__}: {e}"
     data = [r for r in (abstract or []) if r is not None]
@@ -345,7 +348,7 @@ def check_file(res, model, fmt, lines, abstract, tag, newline="\n", final_newlin
                     break
     # ---- correspondence
     if model is not None:
-        rep = model.call("dec.file", fmt, PSEUDO, raw_lines)
+        rep = model.call("dec.file", fmt, list(tables["pseudo"]) if tables else PSEUDO, raw_lines)
         m_err = [x for x in rep if x[0] != "ok"]
         if impl is None:
             numeric_bad = any(x[0] == "ok" and (None in [py_float(t) for t in x[3:8]]) for x in rep)
@@ -387,13 +390,14 @@ def check_bundled(res, model, rel, fmt):
         final = True
     else:
         final = False
-    # the bundled cloud/deuterium networks need their own element lists; restrict to default-parsable files
-    d = ol.scratch_dir()
-    reset_globals()
-    try:
-        check_file(res, model, fmt, lines, None, rel, final_newline=final)
-    finally:
-        pass
+    # the bundled cloud/deuterium networks are read under the element lists their example modules declare
+    # (without the renaming table: the decoder model keeps the names as written)
+    tables = None
+    if "examples/cloud" in rel or "examples/deuterium" in rel:
+        import importlib
+        ex = importlib.import_module("naunet.examples." + rel.split("/")[2])
+        tables = {"elements": list(ex.elements), "pseudo": list(ex.pseudo_elements)}
+    check_file(res, model, fmt, lines, None, rel, final_newline=final, tables=tables)
     res.count("bundled files")
 
 
